@@ -11,7 +11,7 @@ import shutil
 import sys
 from pathlib import Path
 
-from sim import boot, rng as R, workload, cvcase, driver, harvest
+from sim import boot, rng as R, workload, cvcase, driver, harvest, hyprun
 
 boot.boot()
 
@@ -447,20 +447,25 @@ class Sim:
 EDITS = ['append', 'delete', 'swap', 'flip_body', 'flip_header', 'identical', 'foreign_idx', 'no_checksum']
 
 
-def make_machine(workdir_factory, lines, objs, trace_box, stats_box):
+def make_machine(workdir_factory, lines, objs, trace_box, stats_box, log=None):
+    log = log or hyprun.HistoryLog()
     file_st = st.tuples(st.sampled_from(['v', 'v', 'v', 'c']), st.lists(st.integers(0, 60), min_size=0, max_size=9))
 
     class Machine(RuleBasedStateMachine):
         def __init__(self):
             super().__init__()
             self.sim = Sim(workdir_factory(), lines, objs)
-            self.trace = []
+            self.trace = log.new_trace()
             trace_box[0] = self.trace
             stats_box.append(self.sim.stats)
 
         def do(self, op):
             self.trace.append(list(op))
-            self.sim.apply(op)
+            try:
+                self.sim.apply(op)
+            except Violation as v:
+                log.note(v)
+                raise
 
         @rule(kind=st.sampled_from(['v', 'v', 'c']), i=st.integers(0, 60))
         def roundtrip(self, kind, i):
@@ -502,24 +507,20 @@ def run_case(seed, task, tier):
         def factory():
             counter[0] += 1
             return Path(wd) / f'h{counter[0]}'
-        machine = make_machine(factory, lines, objs, trace_box, stats_box)
+        log = hyprun.HistoryLog()
+        machine = make_machine(factory, lines, objs, trace_box, stats_box, log)
         hs = R.derive(seed, ENGINE, idx, 'hyp') % (2 ** 32)
         viol = None
-        try:
-            run_state_machine_as_test(
-                hseed(hs)(machine),
-                settings=settings(max_examples=n_examples, stateful_step_count=30, database=None, deadline=None,
-                                  report_multiple_bugs=False, suppress_health_check=list(HealthCheck),
-                                  verbosity=Verbosity.quiet))
-        except Violation as v:
-            viol = v
+        res = hyprun.run(machine, hs, n_examples, 30, log, Violation)
+        if res is not None:
+            viol_kind, viol = res
         if viol is not None:
             rep = {'property': PROPERTY, 'engine': ENGINE, 'clause': viol.clause, 'signature': viol.signature,
                    'detail': viol.detail, 'seed': seed, 'case': idx, 'hclass': task['hclass'],
-                   'hashseed': driver.HASH_CLASSES[task['hclass']], 'lines': lines, 'ops': trace_box[0],
-                   'shrunk_by': 'hypothesis',
-                   'note': 'round-trip ops replay from the W(r) lines of the in-memory records'}
-            rep['digest'] = R.digest([seed, idx, viol.clause, trace_box[0]])
+                   'hashseed': driver.HASH_CLASSES[task['hclass']], 'lines': lines,
+                   'note2': 'round-trip ops replay from the W(r) lines of the in-memory records'}
+            rep.update(hyprun.report_fields(viol_kind, log, trace_box[0]))
+            rep['digest'] = R.digest([seed, idx, viol.clause, rep['ops']])
             out['violations'].append(rep)
     for s in stats_box:
         out['executions'] += 1
@@ -548,13 +549,21 @@ def replay(rep):
                     sim.objs = objs
             except Exception:  # pylint: disable=broad-except
                 pass
+        sims = [sim]
+
+        def run_history(ops):
+            # every history starts from a fresh store (as every Hypothesis example did)
+            cur = Sim(Path(wd) / f'h{len(sims)}', rep['lines'], sim.objs)
+            sims.append(cur)
+            for op in ops:
+                cur.apply(tuple(op) if op[0] != 'layout' else ('layout', [tuple(f) for f in op[1]], *op[2:]))
         try:
-            for op in rep['ops']:
-                sim.apply(tuple(op) if op[0] != 'layout' else ('layout', [tuple(f) for f in op[1]], *op[2:]))
-        except Violation as v:
-            return [dict(rep, clause=v.clause, signature=v.signature, detail=v.detail)]
+            v = hyprun.replay_with_histories(rep, run_history, Violation)
+            if v is not None:
+                return [dict(rep, clause=v.clause, signature=v.signature, detail=v.detail)]
         finally:
-            sim.close()
+            for x in sims:
+                x.close()
     return []
 
 
@@ -562,4 +571,4 @@ def shrink_candidates(rep):
     ops = rep['ops']
     for i in range(len(ops) - 1, -1, -1):
         if len(ops) > 1:
-            yield dict(rep, ops=ops[:i] + ops[i + 1:])
+            yield dict(rep, ops=ops[:i] + ops[i + 1:], histories=None)
